@@ -197,6 +197,8 @@ type codecCall struct {
 	Fields   []*types.Var // fields read by leading field args (pack) or assigned (unpack)
 	Compress string       // "param" | "false" | "true" | "other" | "" (no compress arg)
 	EndExpr  ast.Expr     // unpack: third argument if any
+	SelField *types.Var   // unpack: the union selector field passed as third argument
+	SelMask  int64        // mask applied to the union selector argument (-1: none)
 	Guard    string       // rendering of an enclosing if condition that is not an error check, "" if none
 	ErrOK    bool         // result error is tested and returned before the next codec call
 	Pos      token.Pos
@@ -244,7 +246,25 @@ func (c *Ctx) analyseCodecBody(fd *ast.FuncDecl, dir string, helpers map[string]
 		if !helpers[name] {
 			return false
 		}
-		cc := &codecCall{Helper: name, Call: call, Assign: as, Pos: call.Pos(), Guard: guard}
+		cc := &codecCall{Helper: name, Call: call, Assign: as, Pos: call.Pos(), Guard: guard, SelMask: -1}
+		// selector argument possibly masked: rr.F & K
+		maskedField := func(a ast.Expr) (*types.Var, int64, bool) {
+			be, ok := ast.Unparen(a).(*ast.BinaryExpr)
+			if !ok || be.Op != token.AND {
+				return nil, 0, false
+			}
+			if f := c.fieldOf(be.X); f != nil {
+				if k, ok := c.exprConst(be.Y); ok {
+					return f, k, true
+				}
+			}
+			if f := c.fieldOf(be.Y); f != nil {
+				if k, ok := c.exprConst(be.X); ok {
+					return f, k, true
+				}
+			}
+			return nil, 0, false
+		}
 		prob := func(f string, a ...interface{}) { cc.Problems = append(cc.Problems, fmt.Sprintf(f, a...)) }
 		var errObj types.Object
 		if dir == "pack" {
@@ -287,6 +307,9 @@ func (c *Ctx) analyseCodecBody(fd *ast.FuncDecl, dir string, helpers map[string]
 							cc.Compress = tv.Value.String()
 						} else if f := c.fieldOf(a); f != nil {
 							cc.Fields = append(cc.Fields, f)
+						} else if f, k, ok := maskedField(a); ok {
+							cc.Fields = append(cc.Fields, f)
+							cc.SelMask = k
 						} else {
 							cc.EndExpr = a
 						}
@@ -320,6 +343,12 @@ func (c *Ctx) analyseCodecBody(fd *ast.FuncDecl, dir string, helpers map[string]
 			}
 			if len(call.Args) >= 3 {
 				cc.EndExpr = call.Args[2]
+				if f, k, ok := maskedField(call.Args[2]); ok {
+					cc.SelMask = k
+					cc.SelField = f
+				} else if f := c.fieldOf(call.Args[2]); f != nil {
+					cc.SelField = f
+				}
 			}
 		}
 		// error check idiom
